@@ -156,7 +156,11 @@ pub fn run(run: &Run) {
                 }
             }
             // other whitespace characters: lexical pipeline only, and the macro path
-            for ws in ["\t", "\n", "\u{3000}", "\u{a0}"] {
+            // quick: tab, newline, ideographic space, no-break space; thorough: every Unicode White_Space
+            let quick_ws = ["\t", "\n", "\u{3000}", "\u{a0}"];
+            let all_ws = ["\t", "\n", "\u{b}", "\u{c}", "\r", " ", "\u{85}", "\u{a0}", "\u{1680}", "\u{2000}", "\u{2001}", "\u{2002}", "\u{2003}", "\u{2004}", "\u{2005}", "\u{2006}", "\u{2007}", "\u{2008}", "\u{2009}", "\u{200a}", "\u{2028}", "\u{2029}", "\u{202f}", "\u{205f}", "\u{3000}"];
+            let ws_list: &[&str] = if tier == Tier::Thorough || toks.len() <= 3 { &all_ws } else { &quick_ws };
+            for ws in ws_list.iter().copied() {
                 let all: Vec<&str> = vec![ws; toks.len() + 1];
                 let s = emit::join_with(&toks, &all);
                 distinct.add(&s);
